@@ -289,6 +289,10 @@ class C05(Spec):
                 j = rng.randint(0, last_admissible(parts, B, s))
                 j2 = rng.randint(j, last_admissible(parts, B, s))
                 case['reqs'] = [{'t0': s / fs, 'key': 5, 'mid': 100, 'j': j}, {'t0': s / fs, 'key': 5, 'mid': 101, 'j': j2}]
+                if rng.random() < 0.5:      # ... and a removal naming that key (the skip list drops one entry per removal)
+                    case['rems'] = [{'r': 0, 'j': rng.choice([j, j2])}]
+                    if rng.random() < 0.3:
+                        case['rems'].append({'r': 0, 'j': j2})
             elif what == 2 and len(parts) >= 2:
                 # removal made visible before the request it names
                 s = rng.randint(0, max(0, N - L))
